@@ -11,6 +11,8 @@ CONSTANTS
   WithProxyDel = TRUE
   CfiLayouts = {"none"}
   Isa = "arm64"
+  WithScopes = FALSE
+  InsFns = {"none"}
   Emit = TRUE
 INVARIANT Inv
 CHECK_DEADLOCK FALSE
